@@ -29,8 +29,8 @@ META = {
     "note": "Trusted: Coq kernel/vm_compute; gen_fieldlists (go/parser) translator; Go engines and case generator; SHA-256 is a Section "
             "variable in the theorems (collision disjunct) and an executable Gallina SHA-256 in the correspondence; bloom filter, "
             "protobuf and gob are opaque bytes (genesis info round trip is observed on the implementation only); the level-list merkle "
-            "model is compared with the literal array algorithm by computation (sizes 0..40) and with Go each run, not by a general "
-            "proof; CumulativeFeeUsed (never set by the node) must be empty for the receipt round trips (refuted otherwise, latent); "
+            "model is proved equal to the literal array algorithm of merkle.go (merkle_root_array_eq) and both are compared with Go "
+            "each run; CumulativeFeeUsed (never set by the node) must be empty for the receipt round trips (refuted otherwise, latent); "
             "known findings F5, F6, F17 are reproduced on the real code each run.",
     "technique": "Coq proofs over Gallina codec models + go/parser field-list translator + vm_compute byte-exact correspondence",
 }
